@@ -9,6 +9,7 @@ import (
 	"os"
 	"os/exec"
 	"path/filepath"
+	"strconv"
 	"strings"
 	"sync"
 	"time"
@@ -37,7 +38,16 @@ var solvers = []solverSpec{
 	}},
 }
 
-var solverSem = make(chan struct{}, 16)
+var solverSem = make(chan struct{}, solverJobs())
+
+// solverJobs is the number of solver processes run at once (16 unless FOXVC_JOBS says otherwise;
+// the corpus runner lowers it so that a background run does not starve interactive checks).
+func solverJobs() int {
+	if v, err := strconv.Atoi(os.Getenv("FOXVC_JOBS")); err == nil && v > 0 {
+		return v
+	}
+	return 16
+}
 
 func runSolver(ctx context.Context, sp solverSpec, file string, sec int) (string, string, int64) {
 	solverSem <- struct{}{}
